@@ -659,8 +659,16 @@ func runC13Listener(c *core.Ctx, e *ev, br *bsRoles, serverClosed *ssa.Global) {
 					retOK := true
 					core.Search(nil, other, func(x ssa.Instruction) core.Action {
 						if ret, ok := x.(*ssa.Return); ok {
-							if len(ret.Results) == 0 || !e.nonNilError(ret.Results[len(ret.Results)-1], ret, 0) {
+							if len(ret.Results) == 0 {
 								retOK = false
+								return core.Barrier
+							}
+							// a merged return (inlined helper, single exit): only the phi edges that this side can
+							// take count
+							for _, v := range phiEdgesFrom(ret.Results[len(ret.Results)-1], other, st.Block()) {
+								if !e.nonNilError(v, ret, 0) {
+									retOK = false
+								}
 							}
 							return core.Barrier
 						}
@@ -1032,4 +1040,43 @@ func isErrNilEdge(a, b *ssa.BasicBlock, errv ssa.Value) bool {
 		return b == c.False
 	}
 	return false
+}
+
+// phiEdgesFrom: the values v can take on paths that start in block from and never enter block avoid:
+// v itself when it is not a phi, else (recursively) the incoming values whose predecessor block is
+// reachable from `from` without passing `avoid`.
+func phiEdgesFrom(v ssa.Value, from, avoid *ssa.BasicBlock) []ssa.Value {
+	reach := map[*ssa.BasicBlock]bool{}
+	var walk func(b *ssa.BasicBlock)
+	walk = func(b *ssa.BasicBlock) {
+		if reach[b] || b == avoid {
+			return
+		}
+		reach[b] = true
+		for _, s := range b.Succs {
+			walk(s)
+		}
+	}
+	walk(from)
+	var out []ssa.Value
+	seen := map[ssa.Value]bool{}
+	var flat func(x ssa.Value, d int)
+	flat = func(x ssa.Value, d int) {
+		if seen[x] {
+			return
+		}
+		seen[x] = true
+		phi, ok := x.(*ssa.Phi)
+		if !ok || d > 6 {
+			out = append(out, x)
+			return
+		}
+		for i, e := range phi.Edges {
+			if reach[phi.Block().Preds[i]] {
+				flat(e, d+1)
+			}
+		}
+	}
+	flat(v, 0)
+	return out
 }
